@@ -18,3 +18,7 @@ pub axiom fn ax_rv_lits()
 pub broadcast group ideal {
     ax_rv_add, ax_rv_sub, ax_rv_mul, ax_rv_div, ax_rv_neg, ax_rv_cmp, ax_rv_eq, ax_rv_max, ax_rv_min
 }
+// (idealised) integer-to-float casts are exact
+pub broadcast axiom fn ax_rv_u64(n: u64) ensures rv(#[trigger] u64_to_f64(n)) == n as real;
+pub broadcast axiom fn ax_rv_usize(n: usize) ensures rv(#[trigger] usize_to_f64(n)) == n as real;
+pub broadcast group ideal_casts { ax_rv_u64, ax_rv_usize }
